@@ -297,17 +297,37 @@ func idmGen(r interface{ IntN(int) int }) idmOp {
 	}
 }
 
-func c15Sequential(c *rt.Ctx, h int) {
-	r := c.Rand(fmt.Sprintf("seq-%d", h))
+// c15Sequential runs one sequential history of n calls against the model. churn biases the generator towards adding
+// and deleting (thousands of successful deletions on one instance: anything the implementation does every so many
+// operations - rebuilding or shrinking its maps - happens inside the history).
+func c15Sequential(c *rt.Ctx, h, n int, churn bool) {
+	r := c.Rand(fmt.Sprintf("seq-%d-%d", n, h))
 	idm := memidm.New()
 	m := newIdmModel()
 	var hist []string
 	if au := idm.AdminUser(); au.Uid() != 0 || au.Gid() != 0 || !au.IsAdmin() || au.Name() != "root" || idm.AdminGroup().Gid() != 0 {
 		c.Disagree("seq|admin-missing", "the administrator user/group (id 0) do not exist from the start", nil)
 	}
-	for i := 0; i < 200; i++ {
+	dels := 0
+	for i := 0; i < n; i++ {
 		o := idmGen(r)
+		if churn {
+			name := idmNames[r.IntN(len(idmNames))]
+			switch x := r.IntN(12); {
+			case x < 4:
+				o = idmOp{K: "AddUser", Name: name, Grp: idmNames[r.IntN(len(idmNames))]}
+			case x < 8:
+				o = idmOp{K: "DelUser", Name: name}
+			case x < 9:
+				o = idmOp{K: "AddGroup", Name: name}
+			case x < 10:
+				o = idmOp{K: "DelGroup", Name: name}
+			}
+		}
 		out := idmExec(idm, o)
+		if (o.K == "DelUser" || o.K == "DelGroup") && out.Err == "" {
+			dels++
+		}
 		hist = append(hist, o.String()+" -> "+out.String())
 		ok, nm, why := m.step(o, out)
 		cls := out.Err
@@ -318,6 +338,9 @@ func c15Sequential(c *rt.Ctx, h int) {
 			cls = "ok"
 		}
 		sig := fmt.Sprintf("seq|%s|%s", o.K, cls)
+		if churn {
+			sig = fmt.Sprintf("seq-long|%s|%s|deletions>=%d", o.K, cls, min3(dels/256, 8)*256)
+		}
 		c.Rep.Case(sig, i > 0)
 		if !ok {
 			c.Disagree(sig+"|model-disagrees:"+why, fmt.Sprintf("MemIdm: %s returns %s, %s", o, out, why), map[string]any{"history": hist})
@@ -354,6 +377,11 @@ func c15Sequential(c *rt.Ctx, h int) {
 			c.Disagree("seq|internal-maps|after:"+o.K, fmt.Sprintf("MemIdm: after %s the internal maps are out of step: %v", o, bad), map[string]any{"history": hist})
 			return
 		}
+	}
+	if churn {
+		c.Rep.Count("long_histories", 1)
+		c.Rep.Count("successful_deletions_in_long_histories", int64(dels))
+		return
 	}
 	c.Rep.Sample(map[string]any{"kind": "sequential history (first 8 calls)", "calls": hist[:8]}, 2)
 }
@@ -512,7 +540,12 @@ func init() {
 			hook.Sequential()
 			for h := 0; h < c.Pick(400, 20000); h++ {
 				if h%c.NShards == c.Shard {
-					c15Sequential(c, h)
+					c15Sequential(c, h, 200, false)
+				}
+			}
+			for h := 0; h < c.Pick(16, 320); h++ {
+				if h%c.NShards == c.Shard {
+					c15Sequential(c, h, 6000, true)
 				}
 			}
 			sched.Install()
